@@ -27,3 +27,51 @@ package platform
 //@   ensures #network-on-close p.NetworkOnClose == (len(v.NetworkOnClose) > 0 ? v.NetworkOnClose : old(p.NetworkOnClose))
 //@   ensures #privilege-levels p.PrivilegeLevels == (len(v.PrivilegeLevels) > 0 ? v.PrivilegeLevels : old(p.PrivilegeLevels))
 //@   ensures #default-priv p.DefaultDesiredPrivilegeLevel == (v.DefaultDesiredPrivilegeLevel != "" ? v.DefaultDesiredPrivilegeLevel : old(p.DefaultDesiredPrivilegeLevel))
+
+// ---- C19 (d): the `options:` block of a platform definition ----------------------------------------------------
+// A-YAML (assumed decoding of yaml.v3 into interface{}): integers decode to int, floats to float64, strings to
+// string, booleans to bool, sequences to []interface{}. docType(d): the value has the type the option documents.
+//@ spec isStrList(x any) bool := typeis(x, "[]interface{}") && (forall k int :: 0 <= k && k < len(as(x, "[]interface{}")) ==> typeis(as(x, "[]interface{}")[k], "string"))
+//@ spec docType(d *optionDefinition) bool :=
+//@        ((d.Option == "port" || d.Option == "read-size" || d.Option == "transport-pty-height" || d.Option == "transport-pty-width") ==> typeis(d.Value, "int"))
+//@     && ((d.Option == "prompt-pattern" || d.Option == "username-pattern" || d.Option == "password-pattern" || d.Option == "passphrase-pattern" || d.Option == "return-char" || d.Option == "transport-type") ==> typeis(d.Value, "string"))
+//@     && ((d.Option == "read-delay" || d.Option == "timeout-ops") ==> typeis(d.Value, "float64"))
+//@     && (d.Option == "transport-system-open-args" ==> isStrList(d.Value))
+// secondsAsDuration(f): a float number of seconds as a time.Duration (f * 1e9 ns, then truncated), as documented
+//@ spec secondsAsDuration(f int) int := toint(fmul(f, flit(1000000000)))
+//@ spec strList(x any) []string
+//@ axiom #strlist-len forall x any :: {strList(x)} len(strList(x)) == len(as(x, "[]interface{}"))
+//@ axiom #strlist-elems forall x any, k int :: {strList(x)[k]} 0 <= k && k < len(as(x, "[]interface{}")) ==> strList(x)[k] == as(as(x, "[]interface{}")[k], "string")
+// optFor(d): the driver option a definition entry stands for (nil for names the block does not know)
+//@ spec optFor(d *optionDefinition) ref :=
+//@        d.Option == "port" ? opt_options_WithPort(as(d.Value, "int"))
+//@      : d.Option == "auth-bypass" ? opt_options_WithAuthBypass()
+//@      : d.Option == "auth-strict-key" ? opt_options_WithAuthNoStrictKey()
+//@      : d.Option == "prompt-pattern" ? opt_options_WithPromptPattern(compiled(as(d.Value, "string")))
+//@      : d.Option == "username-pattern" ? opt_options_WithUsernamePattern(compiled(as(d.Value, "string")))
+//@      : d.Option == "password-pattern" ? opt_options_WithPasswordPattern(compiled(as(d.Value, "string")))
+//@      : d.Option == "passphrase-pattern" ? opt_options_WithPassphrasePattern(compiled(as(d.Value, "string")))
+//@      : d.Option == "return-char" ? opt_options_WithReturnChar(as(d.Value, "string"))
+//@      : d.Option == "read-delay" ? opt_options_WithReadDelay(secondsAsDuration(as(d.Value, "float64")))
+//@      : d.Option == "timeout-ops" ? opt_options_WithTimeoutOps(secondsAsDuration(as(d.Value, "float64")))
+//@      : d.Option == "transport-type" ? opt_options_WithTransportType(as(d.Value, "string"))
+//@      : d.Option == "read-size" ? opt_options_WithTransportReadSize(as(d.Value, "int"))
+//@      : d.Option == "transport-pty-height" ? opt_options_WithTermHeight(as(d.Value, "int"))
+//@      : d.Option == "transport-pty-width" ? opt_options_WithTermWidth(as(d.Value, "int"))
+//@      : d.Option == "transport-system-open-args" ? opt_options_WithSystemTransportOpenArgs(strList(d.Value))
+//@      : nil
+
+//@ func asStringSlice [C19]
+//@   modifies alloc()
+//@   ensures #yaml-list-accepted isStrList(v) ==> result.1 && result.0 === strList(v)
+//@   loop 1 invariant rangeindex < len(as(v, "[]interface{}")) && len(out) == len(as(v, "[]interface{}"))
+//@   loop 1 invariant forall j int :: 0 <= j && j <= rangeindex ==> typeis(as(v, "[]interface{}")[j], "string") && out[j] == as(as(v, "[]interface{}")[j], "string")
+
+//@ func (*optionDefinitions).asOptions [C19]
+//@   requires #documented-types forall i int :: 0 <= i && i < len(val(o)) ==> val(o)[i] != nil && docType(val(o)[i])
+//@   modifies alloc()
+//@   ensures #one-option-per-entry len(result) == len(val(o))
+//@   ensures #each-entry-becomes-its-option forall i int :: 0 <= i && i < len(result) ==> result[i] == optFor(val(o)[i])
+//@   loop 1 invariant rangeindex < len(val(o)) && len(opts) == len(val(o))
+//@   loop 1 invariant forall j int :: 0 <= j && j <= rangeindex ==> opts[j] == optFor(val(o)[j])
+//@   loop 1 invariant forall j int :: rangeindex < j && j < len(opts) ==> opts[j] == nil
